@@ -1,0 +1,5 @@
+// +build !verif
+
+package rockredis
+
+func verifPoint(name string) {}
